@@ -292,11 +292,9 @@ def rule_fwd(ctx, rep):
 
 def _returns_count(F, B, fwd, forwarding):
     b = B.b
-    # no arithmetic anywhere in the body
-    for bl in b["blocks"]:
-        for s in bl["stmts"]:
-            if s["k"] == "assign" and s["rv"]["k"] == "binop" and s["rv"]["op"] in ("Add", "Sub", "Mul", "Div", "Rem", "Shl", "Shr", "BitAnd", "BitOr", "BitXor", "AddWithOverflow", "SubWithOverflow", "AddUnchecked", "SubUnchecked") and not s["span"].get("exp"):
-                return False, "arithmetic (%s) in the accessor at line %s" % (s["rv"]["op"], s["span"]["line"])
+    # (the returned value is followed back through plain moves only: any arithmetic on it ends the chain at a `binop` rvalue and is
+    # refused below; arithmetic elsewhere in the body - the alignment checks a debug build inserts before a raw dereference - is
+    # not on the value's path)
     defs0 = B.defs().get(0, [])
     if not defs0:
         return False, "return place is never assigned by a call"
